@@ -32,7 +32,7 @@ CHECKS = [
          note="Trusted: rustc's MIR dump, the mirsmt encoder (validated each run in concrete mode against the native build), the solvers, and two meta-arguments (invariant induction; additive accumulator loop => exact sum mod 2^W). Windows longer than 65536 bytes and roll on an empty window are outside the claim.",
          technique="SMT over MIR (symbolic execution of rustc MIR, integer encoding with explicit wrap); inductive invariant step; loop acceleration"),
     dict(pid="C01", level="model_checking",
-         text="Signature::generate, SignatureTable::{from_signature,has_weak_match,find_match} and the whole scan loop of CopiaSync::delta with Delta::push_* are executed symbolically from the compiler's MIR on a basis and a source of symbolic bytes (one instance per concrete (basis length, source length, block size) triple); SMT shows for every content: the result is Ok, the header fields are those of the source, op lengths sum to the source size, every copy is block-aligned inside the basis, adjacent ops are merged, and interpreting the ops against the basis yields the source. Weak-hash collisions are covered (the digest is an arbitrary function of the window); the real patch() is decided separately (C05).",
+         text="Signature::generate, SignatureTable::{from_signature,has_weak_match,find_match} and the whole scan loop of CopiaSync::delta with Delta::push_* are executed symbolically from the compiler's MIR on a basis and a source of symbolic bytes (one instance per concrete (basis length, source length, block size) triple); SMT shows for every content: the result is Ok, the header fields are those of the source, op lengths sum to the source size, every copy is block-aligned inside the basis, adjacent ops are merged, and interpreting the ops against the basis yields the source. Weak-hash collisions are covered (the digest is an arbitrary function of the window). The same is decided for the AsyncCopiaSync::delta state machine, the two engines are shown to produce identical deltas op for op, and on further instances the whole chain generate -> delta -> patch (both engines, patch from MIR too) is shown to succeed with output == source in one query.",
          ref="DESIGN.md §4 C01",
          note="Bounded: quick up to 6/6 bytes, block sizes 1-4; thorough up to 10/10, block sizes 1-5. Leaves replaced by contracts: rolling checksums (contract decided by C17), BLAKE3 as an ideal collision-free hash. std models (Vec, HashMap as math map, iterator adaptors, in-memory reader) are trusted and validated each run in concrete mode against the native build. NOT covered: AsyncCopiaSync unless the evidence lists it, sync_files, the CLI chain through bincode files, > 64 KiB inputs / the rayon path, I/O errors.",
          technique="SMT over MIR (symbolic execution of the real pipeline with state merging; bounded unrolling with unwinding assertions; contract summaries); native replay"),
@@ -52,14 +52,14 @@ CHECKS = [
          note="The dry-run clause and the effect on the destination tree are file-system observations and are outside the claim; is_excluded's per-component/whole-path dispatch is read, not decided. Same bounds and trusted base as C19.",
          technique="SMT over MIR (bounded); planner-level obligations; native replay"),
     dict(pid="C14", level="model_checking",
-         text="Thin, planner-level claim: for every pair of metadata maps in which each non-excluded source path has equal (size, whole-second mtime) at the destination, build_plan transfers nothing and (without --delete, or when the destination has no extra paths) deletes nothing; a path is in the transfer list only if it is absent or differs; needs_transfer is exact at full width.",
+         text="Planner level plus the local mtime arithmetic. For every pair of metadata maps in which each non-excluded source path has equal (size, whole-second mtime) at the destination, build_plan transfers nothing and (without --delete, or when the destination has no extra paths) deletes nothing; a path is in the transfer list only if it is absent or differs; needs_transfer is exact at full width. set_local_mtime (from MIR) asks the file system for exactly max(secs,0) whole seconds exactly once for every i64 and reports failures; mtime_secs returns the whole seconds since the epoch for every SystemTime.",
          ref="DESIGN.md §4 C14",
-         note="ASSUMED, not decided: that after a successful run the destination metadata equals the source's (mtime round trip through SystemTime / touch / find is kernel+coreutils behaviour). Bounds and trusted base as C19.",
+         note="ASSUMED, not decided: the kernel keeps the mtime it is given; the remote side (`touch -d @`, `find -printf %T@`, its text parser); that the delivery code calls set_local_mtime with the source's mtime. The file system is not modelled (set_modified is recorded as an effect; counterexamples are replayed on a real temp file). Bounds and trusted base as C19.",
          technique="SMT over MIR (bounded); planner-level obligations"),
     dict(pid="C18", level="proof", engine="kani",
          text="reconcile_path and Fingerprint::same (byte-identical copy of reconcile.rs) are model-checked by Kani/CBMC over ALL triples of optional fingerprints with fully symbolic 32-byte digests and entry types: equal to the documented table written independently, mirror-symmetric, no delete without a base, and a function of presence/equality bits only. The domain is complete (no quotient, no sampling), so this is proof-level for the per-path decision.",
          ref="DESIGN.md §4 C18",
-         note="Trusted: Kani/CBMC, the check-time copy mechanism. Tree-level reconcile() over BTreeMaps is covered only where the evidence lists E1 obligations for it (bounded path universe); the Lean model is not used.",
+         note="Trusted: Kani/CBMC, the check-time copy mechanism. Tree-level reconcile() is decided by E1 (SMT over MIR: BTreeMap keys/chain/collect/sort_unstable/dedup modelled over an ordered universe of 2 (quick) / 3 (thorough) paths, full 32-byte fingerprints): output = exactly the non-Noop per-path table decisions over the union of both sides' paths, base ignored when untrusted. That part is bounded (model checking), the per-path part is proof-level. The Lean model is not used.",
          technique="Kani/CBMC bounded model checking (SAT) of the real function over its full input domain"),
     dict(pid="C20", level="proof", engine="kani",
          text="FrameHeader::{decode,encode,validate,new} and MessageType::from_u8 are decided by Kani/CBMC over all 2^96 header buffers and all valid header values: decode accepts exactly COPA/version 1/type 1..7/length <= 16 MiB, returns the little-endian length, re-encodes to the same bytes, and encode/decode is the identity. Frame-header level only.",
@@ -67,10 +67,10 @@ CHECKS = [
          note="NOT covered (stated): bincode payload round trips of Message/Signature/Delta, Message::decode on arbitrary bytes, Codec::read_message allocation bound, and the CLI file readers — Kani does not finish on serde/bincode/tokio code. std::fmt::format is stubbed to String::new().",
          technique="Kani/CBMC (SAT) over the full 96-bit input space, fmt stubbed"),
     dict(pid="C05", level="model_checking", engine="kani",
-         text="CopiaSync::patch with Delta::validate is model-checked by Kani/CBMC on a 3-byte symbolic basis and deltas whose every header field, copy offset, copy length (<=4) and literal byte is symbolic, for op-list shapes up to [copy, literal, copy]: no panic, success implies the output is exactly what the ops describe, that no copy reads outside the basis, and (verification on) that it hashes to delta.checksum.",
+         text="Two engines decide it. E1 (SMT over MIR): CopiaSync::patch AND the AsyncCopiaSync::patch state machine with Delta::validate are executed symbolically on a symbolic basis and a delta whose op KINDS, copy offsets (any u64), copy lengths (any u32), literal bytes, header fields, checksum and the verify flag are all symbolic (op lists up to 3-4 ops): no panic, success implies the output is exactly what the ops describe, no copy reads outside the basis, and (verification on) the output hashes to delta.checksum. E2 (Kani/CBMC) re-decides the sync engine on the compiled code for concrete op-list shapes with copy length <= 4.",
          ref="DESIGN.md §4 C05",
-         note="Bounded (shapes, 3-byte basis, len <= 4). BLAKE3 is replaced by an injective padding hash (collision-free idealisation). AsyncCopiaSync::patch and the `copia patch` process are not covered unless the evidence lists them. Counterexamples are decoded from Kani's concrete playback and replayed natively in dev and release.",
-         technique="Kani/CBMC bounded model checking of the real patch code; native replay of counterexamples"),
+         note="Bounded: basis <= 5 bytes, <= 4 ops, literals <= 4 bytes (instances listed in evidence). BLAKE3 is an ideal collision-free hash in both engines (E1: a hash value is the hashed string; E2: injective padding shim). E1 trusts its in-memory Cursor/Vec/tokio-future models (validated each run against the native build). The `copia patch` process exit status is not covered. Counterexamples are replayed natively in dev and release.",
+         technique="SMT over MIR (sync + async coroutine) and Kani/CBMC bounded model checking; native replay of counterexamples"),
 ]
 
 
